@@ -203,13 +203,32 @@ def run(ctx: Ctx):
     fp = ctx.func("vrp", "VRPState.from_problem")
     ctx.ob("C18-O2", "R16 PAIRED-EFFECTS", fp, "initially every customer except the depot is unassigned and every route is empty", "unassigned = {c.id for c in customers if c.id != 0}" in ast.unparse(fp.node) and "routes=[[] for _ in range(n_vehicles)]" in ast.unparse(fp.node), "", node=fp.node)
 
+    ua = ctx.func("vrp", "VRPState.update_arrival_times")
+    ucfg = cfg_of(ua.node)
+    ust = [n for n in own_nodes(ua.node) if isinstance(n, ast.Assign) and ast.unparse(n.targets[0]).startswith("self.arrival_times[")]
+    oku = len(ust) == 1
+    if oku:
+        un = ucfg.node_of(ust[0])
+        lp = un.loop
+        oku = lp is not None and lp.kind == "for" and ast.unparse(lp.ast.iter) in ("range(len(self.vehicles))", "range(len(self.routes))", "enumerate(self.routes)") and not [b for b in ucfg.guards(un) if b.test.kind == "test"] and "self.compute_arrival_times(" in ast.unparse(ust[0].value)
+    ctx.ob("C18-O3", "R12 NO-CARDINALITY-CUTOFF", ua, "the refresh recomputes the arrival row of every vehicle, unconditionally", bool(oku), "a vehicle whose route was just emptied keeps its old row if empty routes are skipped: len(arrival_times[v]) != len(routes[v]), and the stored times are not the times of the state", node=ust[0] if ust else ua.node)
     # ---- O4 objective
     sv = ctx.func("vrp", "solve_vrptw")
+    # the objective handed to alns: a closure `def objective(s): return vrp_objective(s, w=w, ...)`, or the same thing as
+    # functools.partial(vrp_objective, w=w, ...) - either way every weight goes to the parameter of its own name
     ob = sv.children.get("objective")
-    ctx.require(ob is not None, "objective closure vanished from solve_vrptw")
-    to = ast.unparse(ob.node)
-    ok = all(f"{w}={w}" in to for w in ("distance_weight", "vehicle_weight", "tw_penalty", "capacity_penalty", "sync_penalty")) and "return vrp_objective(s," in to.replace("\n", "").replace("    ", "")
-    ctx.ob("C18-O4", "R7 EVALUATOR-EXCLUSIVE", sv, "alns receives an objective closure over vrp_objective with the caller's weights", ok and "return alns(initial, objective, destroy_ops, repair_ops" in ast.unparse(sv.node).replace("\n", "").replace("        ", ""), "", node=ob.node)
+    wcall = None
+    if ob is not None:
+        rets = [r for r in own_nodes(ob.node) if isinstance(r, ast.Return) and isinstance(r.value, ast.Call) and ast.unparse(r.value.func) == "vrp_objective"]
+        wcall = rets[0].value if len(rets) == 1 and len(rets[0].value.args) == 1 and ast.unparse(rets[0].value.args[0]) == ob.params[0] else None
+    else:
+        pd = [n.value for n in own_nodes(sv.node) if isinstance(n, ast.Assign) and ast.unparse(n.targets[0]) == "objective" and isinstance(n.value, ast.Call) and ast.unparse(n.value.func) in ("partial", "functools.partial")]
+        wcall = pd[0] if len(pd) == 1 and len(pd[0].args) == 1 and ast.unparse(pd[0].args[0]) == "vrp_objective" else None
+    ctx.require(wcall is not None, "objective handed to alns not found in solve_vrptw (neither a closure over vrp_objective nor a partial of it)")
+    kw = {k.arg: ast.unparse(k.value) for k in wcall.keywords}
+    WEIGHTS = ("distance_weight", "vehicle_weight", "tw_penalty", "capacity_penalty", "sync_penalty")
+    crossed = {w: kw.get(w) for w in WEIGHTS if kw.get(w) != w}
+    ctx.ob("C18-O4", "R7 EVALUATOR-EXCLUSIVE", sv, "alns receives vrp_objective with each of the caller's weights bound to the parameter of the same name", not crossed and "return alns(initial, objective, destroy_ops, repair_ops" in ast.unparse(sv.node).replace("\n", "").replace("        ", ""), f"{crossed}: a weight bound to another term's parameter scores that term with the wrong penalty, and the reported objective is not the documented sum for the caller's weights", node=wcall)
     vo = ctx.func("vrp", "vrp_objective")
     tv = ast.unparse(vo.node)
     terms = ["distance_weight * state.total_distance()", "vehicle_weight * state.vehicles_used()", "tw_penalty * state.time_window_violation()", "capacity_penalty * state.capacity_violation()", "sync_penalty * state.sync_violation()", "unassigned_penalty * len(state.unassigned)"]
@@ -293,6 +312,31 @@ JS, VR = "solvor/job_shop.py", "solvor/vrp.py"
 def _v_single_stop_arrival_shortcut(tree):
     g = M.find_func(tree, "VRPState.compute_arrival_times")
     M.replace_stmt(g, lambda s: isinstance(s, ast.Assign) and M.src_is(s.targets[0], "times"), lambda s: M.stmts("if len(route) == 1:\n    return [self.dist(0, route[0])]") + [s])
+
+
+_PARTIAL = "objective = partial(vrp_objective, distance_weight=distance_weight, vehicle_weight=vehicle_weight, tw_penalty=%s, capacity_penalty=%s, sync_penalty=sync_penalty)"
+
+
+def _objective_as_partial(tree, a, b):
+    g = M.find_func(tree, "solve_vrptw")
+    idx = [i for i, st_ in enumerate(g.body) if isinstance(st_, ast.FunctionDef) and st_.name == "objective"]
+    if not idx:
+        raise M.Skip("objective closure not found")
+    g.body[idx[0]] = M.stmts(_PARTIAL % (a, b))[0]
+    tree.body.insert(0, M.stmts("from functools import partial")[0])
+
+
+def _v_partial_crossed_penalties(tree):
+    _objective_as_partial(tree, "capacity_penalty", "tw_penalty")
+
+
+def _t_objective_partial(tree):
+    _objective_as_partial(tree, "tw_penalty", "capacity_penalty")
+
+
+def _v_refresh_skips_empty_routes(tree):
+    g = M.find_func(tree, "VRPState.update_arrival_times")
+    M.replace_stmt(g, lambda s: isinstance(s, ast.Assign) and M.src_has(s.targets[0], "self.arrival_times["), lambda s: M.stmts("if self.routes[v]:\n    self.arrival_times[v] = self.compute_arrival_times(v)"))
 
 
 def _v_ids_unchecked(tree):
@@ -409,6 +453,9 @@ VARIANTS = [
 
     M.Variant("compute_arrival_times answers a one-stop route without the waiting rule (seed C18-J)", VR, _v_single_stop_arrival_shortcut, "C18-O4"),
     M.Variant("customer ids are used without checking that they are the positions (original defect)", VR, _v_ids_unchecked, "C18-O3"),
+    M.Variant("objective built with functools.partial, time-window and capacity penalties crossed (seed C18-M)", VR, _v_partial_crossed_penalties, "C18-"),
+    M.Variant("twin: objective built with functools.partial, every weight to its own parameter", VR, _t_objective_partial, None),
+    M.Variant("update_arrival_times skips empty routes: an emptied route keeps its old row (seed C18-N)", VR, _v_refresh_skips_empty_routes, "C18-O3"),
     M.Variant("route_removal clears one route only (original defect)", VR, _v_route_removal_original, "C18-O2"),
     M.Variant("sync_aware_insertion overwrites unassigned (original defect)", VR, _v_sync_overwrite, "C18-O2"),
     M.Variant("worst_removal edits its argument", VR, _v_no_copy, "C18-O2"),
